@@ -282,9 +282,9 @@ TQuiesce ==
 TBacklog ==
     /\ St("backlog")
     /\ LET s == sub[Ev.s] IN
-       \* (+ the driver's own sentinel leaves, two per target, which may still be pending)
+       \* (+ the driver's own sentinel leaves, four per target, which may still be pending)
        (s.settled => Ev.len <= Cardinality(DOMAIN s.offers) + Cardinality(s.auxkeys) + 2 * s.dels
-                                + 2 * Cardinality(cfgv.targets)) = TRUE
+                                + 4 * Cardinality(cfgv.targets)) = TRUE
     /\ UNCHANGED <<cfgv, present, vers, sub, wcount, stable>>
 
 (* Driver markers.                                                          *)
